@@ -85,8 +85,8 @@ def check(run):
     if quick:   # the second build (C++20 <=>, UBSan) sweeps the two-operand instances only
         sweeps = [(core.GXX14, [], "g++-14", allk), (core.CLANG20, S.UBSAN, "clang-20-ubsan", ("pair", "shift"))]
     else:
-        sweeps = [(core.GXX14, [], "g++-14", allk), (core.GXX20, [], "g++-20", allk),
-                  (core.CLANG20, S.UBSAN, "clang-20-ubsan", allk)]
+        sweeps = [(core.GXX14, [], "g++-14", allk), (core.CLANG20, S.UBSAN, "clang-20-ubsan", allk),
+                  (core.GXX20, [], "g++-20", ("pair", "shift"))]
     ro = S.readouts(os.path.join(run.wd, "readout"), core.GXX14, units, qunits)
     # the displacement between two origins must be exactly o2 - o1
     for (a, b), o in sorted(ro["disp"].items()):
@@ -177,6 +177,8 @@ def check(run):
         "instances_statically_outside_statement": sum(1 for it in insts if it.static_out),
         "instances_swept_first_build": swept_by_kind,
         "instances_without_any_judged_value": sum(1 for s in first if s["judged"] == 0),
+        "conv_instances_with_policy_checked_in_as": sum(1 for it in insts if it.kind == "conv" and it.ops.get(sweeps[0][0].name, {}).get("pol")),
+        "pair_instances_with_spaceship": sum(1 for it in insts if it.kind == "pair" and any(o.get("ss") for o in it.ops.values())),
         "units": [u.name for u in units], "quantity_units": [u.name for u in qunits], "reps": S.REPS,
         "readout_failures": ro["failed"][:8],
         "common_point_unit_origin_differs_from_smallest_origin": cpu_origin_not_min,
